@@ -185,7 +185,7 @@ func ctxTraceOpt(p *core.Prog, v ssa.Value, stopFn *ssa.Function, nest int) *ctx
 					root("unknown:field", chain)
 					return
 				}
-				fname := st.Field(a.Field).Name()
+				fname := core.FieldName(st, a.Field)
 				n := 0
 				for _, fn := range p.LibFuncs("") {
 					core.Instrs(fn, func(in ssa.Instruction) {
@@ -197,7 +197,7 @@ func ctxTraceOpt(p *core.Prog, v ssa.Value, stopFn *ssa.Function, nest int) *ctx
 						if !ok || core.QualNamedOf(fa2.X.Type()) != tn {
 							return
 						}
-						if st2 := derefStructT(fa2.X.Type()); st2 != nil && st2.Field(fa2.Field).Name() == fname {
+						if st2 := derefStructT(fa2.X.Type()); st2 != nil && core.FieldName(st2, fa2.Field) == fname {
 							n++
 							rec(s.Val, chain, depth+1)
 						}
